@@ -297,13 +297,71 @@ func (x *c13Env) mouseEv(button, col, row, et int64) c13V {
 type c13Res struct {
 	writes    string
 	events    []c13V
+	recv      c13V // the receiver after the run (the caller's value is never mutated)
 	undecided string
 	panicked  string
+	paths     int
 }
 
+const c13MaxPaths = 64
+
+// run evaluates fi on private copies of recv/args. A branch whose condition the
+// evaluator cannot compute forks: both arms are evaluated (each path re-evaluates
+// the function from the start with the earlier decisions replayed, at most
+// c13MaxPaths paths). The run is decided iff everything the rules observe — bytes
+// written to the child, events posted, the decided mode flags / pastePending of the
+// receiver, a would-be panic — is the same on every path; unknown values stored to
+// other fields do not matter.
 func (x *c13Env) run(fi *FuncInfo, recv c13V, args ...c13V) (res c13Res) {
+	queue := [][]bool{nil}
+	var firstDigest string
+	have := false
+	for len(queue) > 0 {
+		forced := queue[len(queue)-1]
+		queue = queue[:len(queue)-1]
+		res.paths++
+		if res.paths > c13MaxPaths {
+			return c13Res{paths: res.paths, undecided: fmt.Sprintf("more than %d paths through conditions the evaluator cannot compute (first: %s)", c13MaxPaths, x.m.firstUnknown)}
+		}
+		memo := map[any]any{}
+		r2 := c13Clone(recv, memo)
+		a2 := make([]c13V, len(args))
+		for i := range args {
+			a2[i] = c13Clone(args[i], memo)
+		}
+		out := x.runPath(fi, r2, a2, forced)
+		queue = append(queue, x.m.pending...)
+		if out.undecided != "" {
+			out.paths = res.paths
+			return out
+		}
+		d := out.panicked + "|" + out.writes + "|" + x.render(c13V{k: c13Slice, el: out.events}, 0) + "|" + x.observe(out.recv)
+		if !have {
+			have, firstDigest = true, d
+			paths := res.paths
+			res = out
+			res.paths = paths
+		} else if d != firstDigest {
+			return c13Res{paths: res.paths, undecided: fmt.Sprintf("the observed outcome depends on a condition the evaluator cannot compute: %s (one path gives %s, another %s)", x.m.firstUnknown, c13Clip(firstDigest), c13Clip(d))}
+		}
+	}
+	return res
+}
+
+func c13Clip(s string) string {
+	if len(s) > 160 {
+		return fmt.Sprintf("%q…", s[:160])
+	}
+	return fmt.Sprintf("%q", s)
+}
+
+func (x *c13Env) runPath(fi *FuncInfo, recv c13V, args []c13V, forced []bool) (res c13Res) {
 	m := x.m
 	m.writes, m.events, m.steps, m.depth = nil, nil, 0, 0
+	m.forced, m.taken, m.pending = forced, nil, nil
+	if len(forced) == 0 {
+		m.firstUnknown = ""
+	}
 	defer func() {
 		if r := recover(); r != nil {
 			switch e := r.(type) {
@@ -317,9 +375,130 @@ func (x *c13Env) run(fi *FuncInfo, recv c13V, args ...c13V) (res c13Res) {
 		}
 		res.writes = strings.Join(m.writes, "")
 		res.events = m.events
+		res.recv = recv
 	}()
 	m.callDecl(fi, &recv, args, fi.Decl)
 	return
+}
+
+// observe renders the part of the receiver's state the rules look at.
+func (x *c13Env) observe(recv c13V) string {
+	if recv.st == nil {
+		return ""
+	}
+	var sb strings.Builder
+	if md := recv.st.f["mode"]; md != nil && md.st != nil {
+		for _, f := range c13Flags {
+			sb.WriteString(f + "=")
+			if s := md.st.f[f]; s != nil {
+				sb.WriteString(x.render(*s, 0))
+			}
+			sb.WriteString(";")
+		}
+	}
+	for _, f := range []string{"pastePending", "reqCursorPos"} {
+		if s := recv.st.f[f]; s != nil {
+			sb.WriteString(f + "=" + x.render(*s, 0) + ";")
+		}
+	}
+	return sb.String()
+}
+
+// render is a canonical text form of a value (unknown parts are "?").
+func (x *c13Env) render(v c13V, depth int) string {
+	if depth > 6 {
+		return "…"
+	}
+	switch v.k {
+	case c13Int:
+		return fmt.Sprint(v.i)
+	case c13Bool:
+		return fmt.Sprint(v.b)
+	case c13Str:
+		return fmt.Sprintf("%q", v.s)
+	case c13Nil:
+		return "nil"
+	case c13Slice:
+		p := make([]string, len(v.el))
+		for i := range v.el {
+			p[i] = x.render(v.el[i], depth+1)
+		}
+		return "[" + strings.Join(p, ",") + "]"
+	case c13Struct, c13Ptr:
+		if v.st == nil {
+			return "ptr"
+		}
+		names := make([]string, 0, len(v.st.f))
+		for n := range v.st.f {
+			names = append(names, n)
+		}
+		sort.Strings(names)
+		p := []string{}
+		for _, n := range names {
+			p = append(p, n+":"+x.render(*v.st.f[n], depth+1))
+		}
+		t := ""
+		if v.st.typ != nil {
+			t = v.st.typ.String()
+		}
+		return t + "{" + strings.Join(p, ",") + "}"
+	case c13Buf:
+		if v.buf != nil {
+			return fmt.Sprintf("buf(%q)", v.buf.String())
+		}
+	case c13Sink:
+		return "pty"
+	case c13Chan:
+		return "queue"
+	}
+	return "?"
+}
+
+// c13Clone copies a value together with everything reachable from it (pointer
+// targets included), preserving sharing inside one clone operation.
+func c13Clone(v c13V, memo map[any]any) c13V {
+	if v.st != nil {
+		if n, ok := memo[v.st]; ok {
+			v.st = n.(*c13Obj)
+		} else {
+			n := &c13Obj{typ: v.st.typ, opaque: v.st.opaque, f: map[string]*c13V{}}
+			memo[v.st] = n
+			for k, fv := range v.st.f {
+				if ns, ok := memo[fv]; ok {
+					n.f[k] = ns.(*c13V)
+					continue
+				}
+				ns := new(c13V)
+				memo[fv] = ns
+				*ns = c13Clone(*fv, memo)
+				n.f[k] = ns
+			}
+			v.st = n
+		}
+	}
+	if v.loc != nil {
+		if ns, ok := memo[v.loc]; ok {
+			v.loc = ns.(*c13V)
+		} else {
+			ns := new(c13V)
+			memo[v.loc] = ns
+			*ns = c13Clone(*v.loc, memo)
+			v.loc = ns
+		}
+	}
+	if v.el != nil {
+		el := make([]c13V, len(v.el))
+		for i := range v.el {
+			el[i] = c13Clone(v.el[i], memo)
+		}
+		v.el = el
+	}
+	if v.buf != nil {
+		b := &strings.Builder{}
+		b.WriteString(v.buf.String())
+		v.buf = b
+	}
+	return v
 }
 
 // ------------------------------------------------------------------ reference tokeniser
@@ -486,6 +665,9 @@ func (x *c13Env) decode(bytes string) (evs []c13V, toks []c13Tok, undecided, bad
 	vx := x.vaxis()
 	for _, t := range toks {
 		r := x.run(x.fnHandle, vx, x.seqV(t))
+		if r.recv.st != nil {
+			vx = r.recv
+		}
 		if r.undecided != "" {
 			return nil, toks, "decoding " + t.String() + ": " + r.undecided, ""
 		}
@@ -1000,7 +1182,7 @@ func (x *c13Env) ruleE() {
 		case r.panicked != "":
 			v.fail("update panics: %s", r.panicked)
 		default:
-			got := x.flagsOf(mdl)
+			got := x.flagsOf(r.recv)
 			if g, ok := got[flag]; !ok || g != want {
 				v.fail("after %s the flag %s is %v, want %v", seq.String(), flag, got[flag], want)
 			}
